@@ -227,11 +227,12 @@ def localise(ctx, templates, bind, strict, via):
             t = dict(templates)
             t["__main__"] = [("text", "<"), nd, ("text", ">")]
             if judge(ctx, t, bind, strict, via, quiet=True):
+                inner = None
                 if nd[0] == "inc" and nd[1] in templates:
                     inner = walk(templates[nd[1]], label + "inc>")
-                    if inner:
-                        return inner
-                return label + nd[0]
+                elif nd[0] == "if":
+                    inner = walk(nd[2] + (nd[3] or []), label + "if>")
+                return inner or label + nd[0]
         return None
     return walk(templates["__main__"], "") or "interaction"
 
